@@ -31,14 +31,14 @@ type PrioSc struct {
 	// Dispatch (plain engines): one reader takes every item off the output at once and
 	// an actor per item releases it later, so releases come in any order relative to
 	// receipt (Handlers[k mod len] is the behaviour for the k-th item).
-	Dispatch bool  `json:"dispatch,omitempty"`
+	Dispatch bool `json:"dispatch,omitempty"`
 	// ReuseMap: the caller clears and reuses the map it passed as Inputs once the
 	// constructor has returned (the discipline must have taken what it needs).
 	ReuseMap bool `json:"reuse_map,omitempty"`
 	// Unit is the measured idle period of the discipline (simulated ns per idle round, 1
 	// for the shipped constants); every pause of the scenario was multiplied by it.
-	Unit int64 `json:"unit"`
-	Horizon  int64 `json:"horizon"`
+	Unit    int64 `json:"unit"`
+	Horizon int64 `json:"horizon"`
 }
 
 // PInput is one input channel and its producer.
@@ -86,7 +86,7 @@ const (
 	varHandleCalls
 	varDivCalls
 	varRunning // running Handle calls
-	varSink = 63
+	varSink    = 63
 )
 
 type pitem struct {
